@@ -4,6 +4,8 @@
 From Coq Require Import List ZArith Bool Lia.
 Import ListNotations.
 From Goat Require Import Model.Client Model.Protocol Proofs.ClientBase Proofs.ProtocolClient.
+From Goat Require Model.Server.
+From Goat Require Import Proofs.ServerOrigin.
 Open Scope Z_scope.
 
 (* Client half. For EVERY run of the client model (any peer, any interleaving of the internal rules with
@@ -40,6 +42,23 @@ Proof.
   - vm_compute in E. inversion E; subst. vm_compute. reflexivity.
 Qed.
 Print Assumptions C06_client_refuted.
+
+(* Server half, PARTIAL. For every run of the server model (Model/Server.v: arbitrary peer, any handler programs,
+   any interleaving): every envelope the server writes answers an envelope it has read - it carries the id of a
+   received envelope ("a server emits envelopes only for ids it has received"), echoes its method, and has the
+   request's source and destination exchanged.
+   NOT PROVED (checked by the monitor on the real server only - Rig B exhaustively, Rig C): that each per-id
+   projection of the server's written log is accepted by proto_s2c (C06_server), that a trailer is present when the
+   handler returned on a live connection whose caller has not reset (C06_trailer_present; false for the handler's own
+   deadline: finding trailer-lost-on-handler-deadline) and that a reset never overtakes its stream's trailer
+   (C06_reset_order). They need the writer accounting invariant (taken = written ++ failed ++ in flight) and the
+   per-handler emission shape of Model/Server.v under the hypothesis that the peer does not reuse ids. *)
+Theorem C06_server_origin : forall nw ls (s : Server.state) f,
+  Server.lrun (Server.init_n nw) ls = Some s -> In (Server.SvWrite f) (Server.log s) ->
+  exists g, In (Server.SvRead g) (Server.log s) /\ Server.fid f = Server.fid g /\
+            Server.f_src f = Server.f_dst g /\ Server.f_dst f = Server.f_src g /\ Server.f_mth f = Server.f_mth g.
+Proof. exact ServerOrigin.C06_server_origin_l. Qed.
+Print Assumptions C06_server_origin.
 
 (* the hypotheses of C06_client are met by a non-trivial run: open, two bodies, half-close, then the
    caller cancels: the client wrote open, body, body, trailer, reset - and the automaton accepts it *)
